@@ -4,6 +4,7 @@
   `p.run tw info dts` performs one `update` per element of `dts` (any partition of time).
 -/
 import KiraModel.Proofs.ParameterLemmas
+import KiraModel.Proofs.GenAgree
 
 namespace K
 open Parameter
